@@ -79,6 +79,10 @@ def main() -> int:
         print("HARNESS-ERROR: cannot import aiohttp from the working tree", file=sys.stderr)
         return 2
 
+    import logging
+
+    logging.disable(logging.CRITICAL)  # aiohttp logs every provoked error; the checks judge by their own oracles
+
     from vlib import runner
 
     pid = a.prop.upper()
